@@ -69,8 +69,20 @@ package iavl
 
 //@ func (*Tree).addOrphan(tree, node)
 //@   summary
+// mutateNode: afterwards the node carries a key of the version being built (its hash will be recomputed with that version)
 //@ func (*Tree).mutateNode(tree, node)
-//@   summary
+//@   props C19
+//@   nosafety
+//@   requires tree != nil && node != nil && tree.version >= 0 && tree.version < 9223372036854775807
+//@   ensures [this-version] be64(node.nodeKey, 0) == tree.version + 1
+//@   ensures [links-kept] node.leftNode == old(node.leftNode) && node.rightNode == old(node.rightNode) && node.key == old(node.key) && node.subtreeHeight == old(node.subtreeHeight) && node.size == old(node.size)
+//@   modifies node.hash, node.nodeKey, node.dirty, tree.leafSequence, tree.branchSequence, tree.workingSize, tree.workingBytes
+//@ func (*Tree).nextLeafNodeKey(tree) (nk)
+//@   props C19
+//@   nosafety
+//@   requires tree != nil && tree.version >= 0 && tree.version < 9223372036854775807
+//@   ensures [this-version] be64(nk, 0) == tree.version + 1
+//@   modifies tree.leafSequence
 
 // ---------------------------------------------------------------- node.go: rebalancing — the four documented cases, ties take the single rotation (as v1)
 //@ func (*Tree).balance(tree, node) (newSelf, err)
@@ -110,11 +122,16 @@ package iavl
 //@   callsite Node).calcHeightAndSize@2 [lifted-second] arg0 == newNode
 //@   modifies *
 
-// node keys are values: reading their parts writes nothing
+// node keys are values (8 bytes version, 4 bytes sequence, big endian): reading their parts writes nothing
 //@ func (NodeKey).Version(nk) (v)
 //@   props C19
+//@   ensures [big-endian] v == ite(be64(nk, 0) >= 9223372036854775808, be64(nk, 0) - 18446744073709551616, be64(nk, 0))
 //@ func (NodeKey).Sequence(nk) (s)
 //@   props C19
+//@   ensures [big-endian] s == be32(nk, 8)
+//@ func NewNodeKey(version, sequence) (nk)
+//@   props C19
+//@   ensures [layout] be64(nk, 0) == ite(version >= 0, version, version + 18446744073709551616) && be32(nk, 8) == sequence
 
 // writeHashBytes: what goes into a node's hash (compare /repo/zz_verif_contracts.go, v1)
 //@ func (*Node).writeHashBytes(node, w) (err)
@@ -133,10 +150,14 @@ package iavl
 //@ func (*Tree).NewLeafNode(tree, key, value) (leaf)
 //@   assumed leaf construction (hashing, pool, metrics) is below this contract
 //@   ensures leaf != nil && fresh(leaf) && leaf.key == key && leaf.subtreeHeight == 0 && leaf.size == 1 && leaf.leftNode == nil && leaf.rightNode == nil
-//@   modifies Tree.*[*]
+//@   modifies tree.leafSequence, tree.workingBytes, tree.workingSize
 //@   allocates Node BM
 //@ func (*Tree).nextNodeKey(tree) (nk)
-//@   summary
+//@   props C19
+//@   nosafety
+//@   requires tree != nil && tree.version >= 0 && tree.version < 9223372036854775807
+//@   ensures [this-version] be64(nk, 0) == tree.version + 1
+//@   modifies tree.branchSequence
 //@ func (*Node).sizeBytes(node) (n)
 //@   summary
 //@ func (*Node)._hash(node) (h)
@@ -160,7 +181,7 @@ package iavl
 //@ func (*Tree).recursiveSet(tree, node, key, value) (newSelf, updated, err)
 //@   props C19
 //@   nosafety
-//@   requires tree != nil && node != nil
+//@   requires tree != nil && node != nil && tree.version >= 0 && tree.version < 9223372036854775807
 //@   macro lt = err == nil && old(node.subtreeHeight) == 0 && old(ord(key)) < old(ord(node.key))
 //@   macro gt = err == nil && old(node.subtreeHeight) == 0 && old(ord(key)) > old(ord(node.key))
 //@   ensures [smaller-parent] lt ==> !updated && newSelf != nil && newSelf != node && newSelf.subtreeHeight == 1 && newSelf.size == 2 && newSelf.key == old(node.key)
@@ -168,6 +189,8 @@ package iavl
 //@   ensures [greater-parent] gt ==> !updated && newSelf != nil && newSelf != node && newSelf.subtreeHeight == 1 && newSelf.size == 2 && newSelf.key == key
 //@   ensures [greater-children] gt ==> newSelf.leftNode == node && newSelf.rightNode != nil && newSelf.rightNode != node && newSelf.rightNode.key == key
 //@   ensures [same-key] err == nil && old(node.subtreeHeight) == 0 && old(ord(key)) == old(ord(node.key)) ==> updated && newSelf == node
+//@   ensures [same-key-reversioned] err == nil && old(node.subtreeHeight) == 0 && old(ord(key)) == old(ord(node.key)) && old(tree.version) >= 0 && old(tree.version) < 9223372036854775807 ==> be64(node.nodeKey, 0) == old(tree.version) + 1
+//@   ensures [version-kept] tree.version == old(tree.version)
 //@   callsite Tree).recursiveSet@1 [descend-left] ord(key) < ord(node.key)
 //@   callsite Tree).recursiveSet@2 [descend-right] ord(key) >= ord(node.key)
 //@   callsite Node).calcHeightAndSize [recompute-after-insert] arg0 == node && !updated
